@@ -166,6 +166,27 @@ def run(ctx: core.Ctx):
                     except Exception:  # noqa: BLE001
                         want = ("R", None)
                     try:
+                        variant = rng.choice(["fresh", "fresh", "after-other", "reinit"]) if want[0] == "OK" else "fresh"
+                        if variant == "after-other":
+                            # the object has a history: other reports for the same function came first, the same text among them
+                            for _tag2, t2 in rng.sample(sample, min(2, len(sample))):
+                                if "\r\n" not in t2:
+                                    conn_.deliver(_St.OK, c["id"], f["name"], t2)
+                            conn_.deliver(_St.OK, c["id"], f["name"], t)
+                            conn_.deliver(_St.OK, c["id"], f["name"], sample[0][1])
+                        elif variant == "reinit":
+                            # ... or the same text was reported before the object was initialised (again)
+                            conn_.deliver(_St.OK, c["id"], f["name"], t)
+                            _orig_get = conn_.get
+
+                            def _get(subunit, funcname, _o=_orig_get, _c=conn_):
+                                _o(subunit, funcname)
+                                if f"{getattr(subunit, 'value', subunit)}" == "SYS" and funcname == "VERSION":
+                                    _c.deliver(_St.OK, "SYS", "VERSION", "1.0")
+                            conn_.get = _get
+                            obj_.initialize()
+                            conn_.get = _orig_get
+                        ctx.count("attribute_history:" + variant)
                         conn_.deliver(_St.OK, c["id"], f["name"], t)
                         got = getattr(obj_, f["attr"])
                     except Exception as e:  # noqa: BLE001
@@ -178,7 +199,9 @@ def run(ctx: core.Ctx):
                     both_nan = isinstance(got, float) and isinstance(exp, float) and got != got and exp != exp
                     if (got != exp or type(got) is not type(exp)) and not both_nan:
                         ctx.violation(f"{c['py']}.{f['attr']} reads {got!r} after the device reported {f['name']}={t!r}; the decoding of that text is {exp!r}",
-                                      {"path": "attribute", "class": c["py"], "function": f["name"], "text": t}, {"kind": "attribute-not-decoding", "tag": tag})
+                                      {"path": "attribute", "class": c["py"], "function": f["name"], "text": t, "history": variant,
+                                       "how": "fresh: report the text to a new object; after-other: other reports for the function first; reinit: report, initialize(), report again — then read the attribute"},
+                                      {"kind": "attribute-not-decoding", "tag": tag})
             for E in conv_enums(conv, []):
                 for m in E:
                     try:
